@@ -394,6 +394,51 @@ def run(ctx):
     S.run(dr, pe)
     if dr.nproto < 2:
         raise Broken("C07.R6: protocol-error exits of process_ssl_event not found (%d)" % dr.nproto)
+    from . import C02 as c02
+    c02.check_store_queue_clean(P, r6)
+
+    # ------------------------------------------------------------------ R7
+    # the peer's certificate is wire input too: its fields (subject key identifier, names) are formatted for the log by
+    # the verification callback whether or not logging is on
+    r7 = ctx.rule("C07.R7", "fields of the peer's certificate are formatted within the buffers they are given")
+    ctx.trust("hash_description(hash, n, buf) writes 3*n+1 bytes at buf (three characters per byte and the terminator; read off libxcm/tp/tls/log_tls.c)")
+    engc = B.Engine(P)
+    nhd = 0
+    for f in P.functions:
+        if not f.file.startswith("libxcm/"):
+            continue
+        fb = None
+        for c in f.calls("hash_description"):
+            a = f.nodes[c]["args"]
+            if len(a) < 3:
+                continue
+            nhd += 1
+            r7.instance("%s: %s" % (f.qname, f.show(c)[:60]))
+            fb = fb or B.FnBounds(engc, f)
+            ln = fb.lin(a[1])
+            cap = fb.capof(a[2])
+            size = ({t: 3 * k for t, k in ln[0].items()}, 3 * ln[1] + 1) if ln is not None else None
+            if size is not None and cap is not None and fb.prove_le(fb.before.get(c, B.Facts()), size, cap):
+                r7.ok("%s: 3*%s+1 bytes fit %s" % (f.qname, f.show(a[1]), f.show(a[2])), "difference constraints")
+            else:
+                r7.violation("%s:hash_description(%s)" % (f.name, f.show(a[2])[:30]), "%s formats %s bytes of certificate data (3 per byte + 1) into %s, whose size does not "
+                             "provably suffice: a peer whose certificate carries a longer field overruns the buffer during the handshake" % (f.name, f.show(a[1]), f.show(a[2])), loc=f.loc(c))
+    for f in P.fns_in("tls/log_tls.c") + P.fns_in("tls/cert.c"):
+        if f.name == "hash_description":
+            continue
+        rq, unp = engc.analyse(f)
+        r7.instance(f.qname)
+        for u in unp:
+            r7.violation(u["key"], "certificate/log formatting: write not provably within bounds: %s <= %s (in %s)" % (u["size"], u["cap"], f.name), loc=u["loc"])
+        for r in rq:
+            lhs, rhs = B.show_lin(r.lhs), B.show_lin(r.rhs)
+            pn = [p["name"] for p in f.params]
+            if "cap(" in rhs and (lhs in pn or any(lhs.startswith(x) for x in ("strlen(", "ASN1_STRING_length("))) and not f.static:
+                continue        # the (buffer, capacity) contract of an exported helper, discharged at its callers below
+            if not f.static:
+                r7.violation(r.origin["key"], "certificate/log formatting: needs %s <= %s, which nothing establishes" % (lhs, rhs), loc=r.origin["loc"])
+    if nhd < 1:
+        raise Broken("C07.R7: no use of hash_description found")
 
 
 def check_read_lengths(P, eng, r5):
